@@ -265,7 +265,7 @@ def gen_case(f, ch, small=False):
                 multi_tag = (o["long"], conv(o["type"], t, o["nullable"]))
         if len(tok) >= 3:
             grouped.update(o["long"] for o in g)
-            groups.append(dict(tokens=[tok] + extra, bare=False, multi=multi_tag, form=form))
+            groups.append(dict(tokens=[tok] + extra, bare=False, multi=multi_tag, form=form, opt=None, text=None))
         else:
             grouped = set()
     for o, texts in given:
@@ -275,7 +275,8 @@ def gen_case(f, ch, small=False):
             if t is None:
                 forms = [("L", ["--" + o["long"]])] + ([("S", ["-" + o["short"]])] if o["short"] else [])
                 name, toks = ch.choice(forms)
-                groups.append(dict(tokens=toks, bare=o["mode"] == "opt", multi=None, form=name + ("bare" if o["mode"] == "opt" else "flag")))
+                groups.append(dict(tokens=toks, bare=o["mode"] == "opt", multi=None, form=name + ("bare" if o["mode"] == "opt" else "flag"),
+                                   opt=o["long"], text=None))
                 continue
             forms = [("L=", ["--%s=%s" % (o["long"], t)])]
             if not t.startswith("-"):
@@ -286,9 +287,9 @@ def gen_case(f, ch, small=False):
                     forms.append(("S_", ["-" + o["short"], t]))
             name, toks = ch.choice(forms)
             mt = (o["long"], conv(o["type"], t, o["nullable"])) if o["mode"] == "multi" else None
-            groups.append(dict(tokens=toks, bare=False, multi=mt, form=name))
+            groups.append(dict(tokens=toks, bare=False, multi=mt, form=name, opt=o["long"], text=t))
     groups = ch.shuffled(groups)
-    seq = [("p", [t]) for a, t in pos[:ddpos]]
+    seq = [("p", [t], a["name"]) for a, t in pos[:ddpos]]
     for g in groups:
         seq.insert(ch.randint(0, len(seq)), ("o", g))
 
@@ -303,6 +304,7 @@ def gen_case(f, ch, small=False):
             exp_opts[o["long"]] = conv(o["type"], texts[0], o["nullable"])
     toks = []
     pattern = []
+    chunks = []
     for idx, item in enumerate(seq):
         if item[0] == "o":
             g = item[1]
@@ -314,12 +316,17 @@ def gen_case(f, ch, small=False):
                     return None
             toks += g["tokens"]
             pattern.append(g["form"])
+            chunks.append(dict(kind="opt", tokens=list(g["tokens"]), form=g["form"], bare=g["bare"], opt=g["opt"], text=g["text"]))
         else:
             toks += item[1]
             pattern.append("p")
+            chunks.append(dict(kind="pos", tokens=list(item[1]), arg=item[2]))
     if use_dd:
         toks += ["--"] + [t for a, t in pos[ddpos:]]
         pattern.append("--%d" % (len(pos) - ddpos))
+        chunks.append(dict(kind="dd", tokens=["--"]))
+        for a, t in pos[ddpos:]:
+            chunks.append(dict(kind="tail", tokens=[t], arg=a["name"]))
 
     mode = ch.choice(["names", "alias", "omit_last", "omit_all"]) if f["cmds"] else "names"
     cm = []
@@ -330,8 +337,10 @@ def gen_case(f, ch, small=False):
             break
         cm.append(ch.choice(c["aliases"]) if mode == "alias" and c["aliases"] else c["name"])
     nontrivial = (bool(given) and bool(pos)) or any(p[0] == "G" for p in pattern) or use_dd or mode in ("omit_last", "omit_all")
+    chunks = [dict(kind="cmd", tokens=[c]) for c in cm] + chunks
     return dict(tokens=cm + toks, exp_opts=exp_opts, exp_args=exp_args, mode=mode, pattern=tuple(pattern), nontrivial=nontrivial,
-                ncmd=len(cm))
+                ncmd=len(cm), chunks=chunks, npos=len(pos), nsingle=len(single), nreq=nreq, k=k, has_multi=bool(multi),
+                multi_values=sum(1 for a, t in pos if a["multi"]))
 
 
 def with_defaults(f, exp_opts, exp_args):
